@@ -8,6 +8,7 @@
 (*       explicit     1 iff the state / action lists are given explicitly (all states)   *)
 (*       cuts         the max_states values explored for reachable_states (INF = -1)     *)
 (*       plan         1 iff the optimal values are wanted (planning-result clause)       *)
+(*     The discount GN/GD may be 0 (GN = 0): discount_rate = 0 is a legal, falsy value.  *)
 (*     PD is 2, 3, 4 or - in the rare-probability family - 10^8 / 10^9 with numerators   *)
 (*     1 and 10 next to ordinary ones (entries of 1e-9 / 1e-8: positive, hence successors *)
 (*     and cells like any other; rewards are bounded there so that every sum T*R stays   *)
@@ -69,6 +70,13 @@ OSAR(m, L, s, a) == SumSet([t \in St(m) |-> OT(m, s, a, t) * OR(m, s, a, t)], L)
 FullT(m) == [s \in St(m) |-> [a \in Ac(m) |-> [t \in St(m) |-> OT(m, s, a, t)]]]
 FullR(m) == [s \in St(m) |-> [a \in Ac(m) |-> [t \in St(m) |-> OR(m, s, a, t)]]]
 FullSAR(m) == [s \in St(m) |-> [a \in Ac(m) |-> OSAR(m, St(m), s, a)]]
+
+\* discount 0 (GN = 0, outside MDP!WellFormed): the optimal value is the best expected immediate reward
+ImmediateValue(m) ==
+  [s \in St(m) |-> IF s \in ExplAbs(m) THEN <<0, 1>>
+                   ELSE RMaxSet({Norm(OSAR(m, St(m), s, a), m.PD) : a \in Avail(m, s)})]
+\* optimal values wanted by the planning clause (every state has an action on such instances)
+PlanValue(m) == IF m.GN = 0 THEN ImmediateValue(m) ELSE OptimalValue(m)
 
 \* corner inputs named by the quantifier (only counted in the evidence; no verdict depends on them)
 GhostOutside(m, L) == {s \in L \cap ExplAbs(m) : ~(Edges(m, s) \subseteq L)}
@@ -221,7 +229,7 @@ ViewRecord(m) ==
    absinit |-> AbsInitGhost(m),
    const |-> ConstCompat(m),
    cuts |-> SetsOf(m),
-   vstar |-> IF m.plan = 1 THEN OptimalValue(m) ELSE <<>>]
+   vstar |-> IF m.plan = 1 THEN PlanValue(m) ELSE <<>>]
 Emit ==
   /\ phase = "done" => PrintT(ToJson(ViewRecord(M)))
   /\ phase = "cutdone" => PrintT(ToJson([iid |-> iid, kind |-> "cut", cut |-> cut,
@@ -277,9 +285,16 @@ RoundTrip ==
   (phase = "done") => SameArrays(M, lst, T, Rw, Am, der, rb)
 \* instance filter
 InstancesWellFormed ==
-  /\ WellFormed(M)
+  \* MDP!WellFormed with the discount allowed to be 0 (the wrapper clauses cover discount_rate = 0)
+  /\ \A s \in St(M) : \A a \in Avail(M, s) : SumTo([t \in St(M) |-> M.P[s][a][t]], M.N) = M.PD
+  /\ \A s \in St(M), a \in Ac(M), t \in St(M) : M.P[s][a][t] >= 0
+  /\ SumTo([s \in St(M) |-> M.p0[s]], M.N) = M.ID
+  /\ M.GN >= 0 /\ M.GN <= M.GD
   /\ \A s \in St(M), a \in Ac(M), t \in St(M) : M.Z[s][a][t] = 1 => M.P[s][a][t] = 0
   /\ \A s \in St(M) : M.Z0[s] = 1 => M.p0[s] = 0
+\* (P8) at discount 0 the general oracle (policy enumeration + linear solve) degenerates to the myopic formula
+ZeroDiscountIsMyopic ==
+  (phase = "done" /\ M.plan = 1 /\ M.GN = 0) => OptimalValue(M) = ImmediateValue(M)
 \* termination: a state without successor is a terminal phase
 Terminates == (~ENABLED Next) => phase \in {"done", "cutdone"}
 =============================================================================
